@@ -11,6 +11,9 @@ from collections import Counter
 import vlib
 import clirun
 import faults
+import cde
+import copy
+import random
 from clirun import CLI
 from vlib import log, write_replay
 
@@ -806,6 +809,281 @@ def streams_c18(ctx, scale, off):
     return [s1], c1
 
 
+# ---- CdE Datenbank formats (C05, C11, C12, C13)
+
+def brief_cde(r):
+    return {k: r.get(k) for k in ("export_file", "track", "ignore_cancelled", "ignore_assigned", "args", "exit", "stderr", "problem", "lists", "impl", "code", "export")}
+
+
+def c12_extra(ctx, cases, for_c08=False):
+    n = 150 if ctx.tier == "quick" else 1500
+    vlib.build_harness()
+    recs = cde.read_cases(ctx, ctx.seed + 12, n)
+    viol, dis = [], []
+    st = Counter()
+    for r in recs:
+        c = r["code"]
+        st["cases"] += 1
+        st["accepted" if c & 2 else "refused"] += 1
+        if r["ignore_assigned"]:
+            st["ignore_assigned"] += 1
+        if r["ignore_cancelled"]:
+            st["ignore_cancelled"] += 1
+        if isinstance(r["impl_full"], dict) and r["impl_full"].get("quality") and r["impl_full"]["quality"][1]:
+            st["with_external_penalties"] += 1
+        w = None
+        if "panic" in r["impl_full"]:
+            w = "C12/C15: cdedb::read panics"
+        elif not for_c08 and not c & 4:
+            w = "C12: a choice's penalty is not its position in the registration's choice list of the export (penalties_okb evaluated in Coq)"
+        elif not c & 16:
+            w = "C08: an ignored pre-assigned participant is not rated by the rank of its course in the ORIGINAL choice list (ext_quality_okb: " \
+                "AssignmentQualityInfo recomputed declaratively from the raw export in Coq)"
+        elif not for_c08 and not c & 8:
+            w = "C12: a document of the wrong kind / schema version / without or with several unselected tracks / with an unknown track was accepted"
+        elif not c & 1:
+            dis.append(r)
+        if w:
+            viol.append((w, ctx.replay({"kind": "failing-input", "stream": "cderead", "what": w, "case": brief_cde(r)}), False))
+    if dis and not viol:
+        r = min(dis, key=lambda r: len(json.dumps(r["export"])))
+        what = "correspondence CorrCde.check_read: cdedb::read and the model Json.read_full differ (participants, choices/penalties, courses, sizes, " \
+               "instructors, hidden names, external quality data, ids, or acceptance)"
+        rp = ctx.replay({"kind": "no-failing-input-found", "stream": "cderead", "broken": what, "first_disagreeing_case": brief_cde(r), "impl_full": r["impl_full"],
+                         "disagreements": len(dis)})
+        viol.append(("%s (%d cases)" % (what, len(dis)), rp, True))
+    ctx.extra_cov = dict(getattr(ctx, "extra_cov", {}) or {}, cde_reader={"runs": st["cases"], **dict(st)})
+    return viol[:4], []
+
+
+def cde_oracle_c11(r):
+    """independent reading of C11's first clauses from the raw export (python): returns a text if violated"""
+    e, t, ic, ia = r["export"], r["track"], r["ignore_cancelled"], r["ignore_assigned"]
+    if r["lists"] is None:
+        return None
+    regs, crs = r["lists"]
+    tid = t
+    if tid is None:
+        ts = [k for p in e["event"]["parts"].values() for k in p["tracks"]]
+        tid = int(ts[0]) if len(ts) == 1 else None
+    if tid is None:
+        return None
+    part = [pid for pid, p in e["event"]["parts"].items() if str(tid) in p["tracks"]][0]
+    offered = {int(c) for c, v in e["courses"].items() if str(tid) in v["segments"]}
+    cancelled = {int(c) for c, v in e["courses"].items() if v["segments"].get(str(tid)) is False}
+    in_problem = offered - (cancelled if ic else set())
+    mentioned_c = {c for c, _ in crs}
+    active = {c for c, a in crs if a}
+    if ic and (mentioned_c & cancelled or {c for _, c in regs} & cancelled):
+        return "C11: with --ignore-cancelled a cancelled course is mentioned in / assigned to by the import file"
+    if not (mentioned_c <= offered) or not ({c for _, c in regs} <= offered):
+        return "C05: the import file mentions a course that is not offered in the selected track"
+    if ia:
+        for rid, v in e["registrations"].items():
+            st = v["parts"].get(part, {}).get("status")
+            cid = v["tracks"].get(str(tid), {}).get("course_id")
+            if st == 2 and cid is not None and cid in in_problem:
+                if int(rid) in {x for x, _ in regs}:
+                    return "C11: with --ignore-assigned an already assigned registration (%s) is reassigned / mentioned in the import file" % rid
+                if cid not in active:
+                    return "C11: the course (%s) of an ignored pre-assigned registration is cancelled / not marked as taking place" % cid
+    rids = {int(x) for x in e["registrations"]}
+    if not ({x for x, _ in regs} <= rids):
+        return "C05: the import file names a registration that is not in the export"
+    return None
+
+
+def e2e_checks(ctx, pid, seed, count, opts_fn, what_prefix):
+    binpath = vlib.build_cli()
+    recs = cde.e2e_cases(ctx, seed, count, binpath, opts_fn=opts_fn)
+    viol, dis = [], []
+    st = Counter()
+    for r in recs:
+        c = r["code"]
+        st["runs"] += 1
+        st["exit_%s" % r["exit"]] += 1
+        if r["ignore_assigned"]:
+            st["ignore_assigned"] += 1
+        if r["ignore_cancelled"]:
+            st["ignore_cancelled"] += 1
+        w = None
+        if r["timeout"] or r["panicked"] or r["exit"] not in (0, 1, 65):
+            w = "%s: the program crashes / hangs on a well-formed export (exit %s)" % (what_prefix, r["exit"])
+        elif r["exit"] == 0 and (r["lists"] is None):
+            w = "%s: exit 0 but the import file is missing / malformed / names another track (%s)" % (what_prefix, r["problem"])
+        elif r["exit"] == 0 and not c & cde.IMP["model_reads"]:
+            dis.append(r)
+        elif r["exit"] == 0 and not c & cde.IMP["import_ok"]:
+            w = "%s: applying the import file does not yield a consistent track (import_okb evaluated in Coq: ids, chosen/instructed course marked " \
+                "active, sizes within the limits counting reserved places, nobody in a cancelled course, fixed courses active)" % what_prefix
+        elif r["exit"] == 0 and not c & cde.IMP["hard"]:
+            w = "%s: the assignment encoded by the import file violates the hard constraints of the problem" % what_prefix
+        elif r["exit"] == 0 and cde_oracle_c11(r):
+            w = cde_oracle_c11(r)
+        elif r["exit"] == 0 and not c & cde.IMP["write_agree"]:
+            dis.append(r)
+        elif r["exit"] != 0 and r["lists"] is not None:
+            w = "%s: an import file was written although the exit status is %s" % (what_prefix, r["exit"])
+        if r["exit"] == 0:
+            st["files_checked"] += 1
+        if w:
+            viol.append((w, ctx.replay({"kind": "failing-input", "stream": "cde-e2e", "what": w, "case": brief_cde(r)}), False))
+    if dis and not viol:
+        r = dis[0]
+        what = "correspondence CorrCde.check_import: the import file differs from the model Cde.write_regs / write_courses, or the model refuses an export the binary accepts"
+        viol.append((what + " (%d runs)" % len(dis), ctx.replay({"kind": "no-failing-input-found", "stream": "cde-e2e", "broken": what,
+                                                                  "first_disagreeing_case": brief_cde(r), "disagreements": len(dis)}), True))
+    ctx.extra_cov = dict(getattr(ctx, "extra_cov", {}) or {}, cli_runs=dict(st))
+    return viol[:4], []
+
+
+def c05_extra(ctx, cases):
+    n = 420 if ctx.tier == "quick" else 3000
+    return e2e_checks(ctx, "C05", ctx.seed + 5, n, None, "C05")
+
+
+def c11_opts(r, ex):
+    ts = [t for t, _ in ex["tracks"]]
+    res = []
+    for (ic, ia) in ((False, True), (True, True), (True, False)):
+        res.append((r.choice(ts) if len(ts) > 1 or r.random() < 0.5 else None, ic, ia))
+    return res
+
+
+def c11_extra(ctx, cases):
+    n = 80 if ctx.tier == "quick" else 900
+    return e2e_checks(ctx, "C11", ctx.seed + 11, n, c11_opts, "C11")
+
+
+def irrelevant_edit(r, e, tid, ic, ia):
+    """1-5 edits that must not matter: other tracks / parts, lodgement and persona data, and (without the options) course_id values and
+    boolean flips of segments of the selected track"""
+    e = copy.deepcopy(e)
+    part = [pid for pid, p in e["event"]["parts"].items() if str(tid) in p["tracks"]][0]
+    other_tracks = [k for p in e["event"]["parts"].values() for k in p["tracks"] if k != str(tid)]
+    cids = [int(c) for c in e["courses"]]
+    done = []
+    for _ in range(r.randint(1, 5)):
+        kind = r.choice(["reg_other_track", "reg_other_part", "seg_other_track", "persona", "lodgement", "course_id", "seg_flip", "course_other_field"])
+        if kind == "reg_other_track" and other_tracks and e["registrations"]:
+            reg = e["registrations"][r.choice(list(e["registrations"]))]
+            t2 = r.choice(other_tracks)
+            reg["tracks"][t2] = {"course_id": r.choice([None] + cids), "course_instructor": r.choice([None] + cids), "choices": r.sample(cids, r.randint(0, len(cids)))}
+        elif kind == "reg_other_part" and e["registrations"]:
+            reg = e["registrations"][r.choice(list(e["registrations"]))]
+            others = [p for p in e["event"]["parts"] if p != part]
+            if others:
+                reg["parts"][r.choice(others)] = {"status": r.choice([-1, 1, 2, 3, 4, 5])}
+            else:
+                continue
+        elif kind == "seg_other_track" and other_tracks:
+            c = e["courses"][r.choice(list(e["courses"]))]
+            t2 = r.choice(other_tracks)
+            if r.random() < 0.3 and t2 in c["segments"]:
+                del c["segments"][t2]
+            else:
+                c["segments"][t2] = r.choice([True, False])
+        elif kind == "persona" and e["registrations"]:
+            reg = e["registrations"][r.choice(list(e["registrations"]))]
+            reg["persona"]["username"] = "x%d@example.org" % r.randint(0, 99)
+            reg["persona"]["birthday"] = "2000-01-0%d" % r.randint(1, 9)
+        elif kind == "lodgement":
+            e["lodgements"][str(r.randint(1, 50))] = {"title": "Haus %d" % r.randint(1, 9), "regular_capacity": r.randint(1, 9)}
+        elif kind == "course_id" and not ia and e["registrations"]:
+            reg = e["registrations"][r.choice(list(e["registrations"]))]
+            if str(tid) in reg["tracks"]:
+                reg["tracks"][str(tid)]["course_id"] = r.choice([None] + cids)
+            else:
+                continue
+        elif kind == "seg_flip" and not ic:
+            c = e["courses"][r.choice(list(e["courses"]))]
+            if isinstance(c["segments"].get(str(tid)), bool):
+                c["segments"][str(tid)] = not c["segments"][str(tid)]
+            else:
+                continue
+        elif kind == "course_other_field":
+            c = e["courses"][r.choice(list(e["courses"]))]
+            c["title"] = "Ein längerer Titel %d" % r.randint(0, 99)
+            c["fields"]["room"] = "R%d" % r.randint(0, 9)
+        else:
+            continue
+        done.append(kind)
+    return e, done
+
+
+def c13_extra(ctx, cases):
+    n = 70 if ctx.tier == "quick" else 800
+    binpath = vlib.build_cli()
+    r, exports = cde.make_exports(ctx, ctx.seed + 13, n, dense_assign=True)
+    d = os.path.join(ctx.work, "cde")
+    pairs = []
+    for ex in exports:
+        if ex["export"]["kind"] != "partial" or not ex["tracks"]:
+            continue
+        for (track, ic, ia) in cde.option_sets(r, ex, 2):
+            tid = track if track is not None else (ex["tracks"][0][0] if len(ex["tracks"]) == 1 else None)
+            if tid is None or tid not in [t for t, _ in ex["tracks"]]:
+                continue
+            e2, kinds = irrelevant_edit(r, ex["export"], tid, ic, ia)
+            if not kinds:
+                continue
+            p2 = os.path.join(d, "twin_%04d_%d.json" % (ex["id"], len(pairs)))
+            json.dump(e2, open(p2, "w", encoding="utf-8"), ensure_ascii=False)
+            pairs.append((ex, e2, p2, track, ic, ia, kinds))
+    from concurrent.futures import ThreadPoolExecutor
+
+    def work(t):
+        ex, e2, p2, track, ic, ia, kinds = t
+        res = []
+        for src, tag in ((ex["file"], "a"), (p2, "b")):
+            outp = p2 + "." + tag + ".out"
+            if os.path.exists(outp):
+                os.remove(outp)
+            args = ["--cde", "--num-threads", "1"] + (["--track", str(track)] if track is not None else []) + (["-i"] if ic else []) + (["-j"] if ia else []) + [src, outp]
+            run = clirun.run_bin(binpath, args)
+            out = None
+            if os.path.exists(outp):
+                try:
+                    dd = json.load(open(outp, encoding="utf-8"))
+                    out = {"registrations": dd.get("registrations"), "courses": dd.get("courses")}
+                except Exception as ex2:
+                    out = "unparsable: %s" % ex2
+            m = re_score.search(run["stderr"])
+            res.append({"args": args, "exit": run["rc"], "out": out, "score": m.group(1) if m else None, "stderr": run["stderr"][-300:]})
+        return res
+
+    import re
+    global re_score
+    re_score = re.compile(r"Solution score:\s+(\d+)")
+    with ThreadPoolExecutor(max_workers=16) as exr:
+        results = list(exr.map(work, pairs))
+    # the model must classify the edit as irrelevant too: read_full equal on both documents
+    texts = ["(%s, %s, %s)" % (cde.coq(ex["export"]), cde.coq(e2), cde.g_opts(track, ic, ia)) for (ex, e2, p2, track, ic, ia, kinds) in pairs]
+    codes = cde.eval_cases(ctx, "twin", "twin_case", "check_twin", texts)
+    viol = []
+    st = Counter()
+    dis = []
+    for (ex, e2, p2, track, ic, ia, kinds), (a, b), code in zip(pairs, results, codes):
+        st["pairs"] += 1
+        for k in kinds:
+            st["edit:" + k] += 1
+        if a["exit"] == 0:
+            st["pairs_with_solution"] += 1
+        if (a["exit"], a["out"], a["score"]) != (b["exit"], b["out"], b["score"]):
+            w = "C13: an edit outside the selected track's live data (%s) changes verdict, score or the written assignments/segments" % ", ".join(kinds)
+            viol.append((w, ctx.replay({"kind": "failing-input", "stream": "cde-twin", "what": w, "case": {"export": ex["export"], "edited_export": e2, "edits": kinds,
+                                        "run_original": a, "run_edited": b}}), False))
+        elif not code & 1:
+            dis.append((ex, e2, kinds, a, b))
+    if dis and not viol:
+        ex, e2, kinds, a, b = dis[0]
+        what = "correspondence CorrCde.check_twin: the reader model Json.read_full distinguishes two exports that differ only by an irrelevant edit (%s)" % ", ".join(kinds)
+        viol.append((what, ctx.replay({"kind": "no-failing-input-found", "stream": "cde-twin", "broken": what,
+                                       "first_disagreeing_case": {"export": ex["export"], "edited_export": e2, "edits": kinds}}), True))
+    ctx.extra_cov = dict(getattr(ctx, "extra_cov", {}) or {}, cli_runs={"runs": 2 * len(pairs), **dict(st)})
+    return viol[:4], []
+
+
 def spec_none(c):
     return None
 
@@ -820,6 +1098,10 @@ def streams_node_solve(rooms):
         s2, c2 = solve_stream(ctx, ctx.seed + off + 1, 120 * scale, rooms=rooms)
         return [s1, s2], c1 + c2
     return f
+
+
+def c08_extra(ctx, cases):
+    return c12_extra(ctx, cases, for_c08=True)
 
 
 def streams_c08(ctx, scale, off):
@@ -851,6 +1133,49 @@ RULE_TREE = "seeded synthetic subproblem trees (1-12 nodes, chains and bushy, al
             "wake-ups, exhaustive DFS over all schedules of trees <= 4 nodes with 2 workers; non-trivial = distinct (tree, schedule) accepted"
 
 REGISTRY = {
+
+    "C12": dict(mk(spec_none, streams_none, "seeded well-formed partial exports (1-3 parts, 0-2 tracks each, 2-7 courses with segment maps offered/"
+                   "cancelled/absent, non-dense ids with lexicographic != numeric order, non-ASCII course numbers, missing/odd size limits, 1-10 "
+                   "registrations with all status codes, choices of cancelled / not offered courses, existing assignments and instructors, "
+                   "kind 'full' and schema versions at and beyond the window) x (track given / omitted / unknown, both ignore flags)",
+                   extra_fn=c12_extra), allow_axioms=(),
+        explanation="C12_penalty_position / C12_refuse_* about the transcription Json.read_full of cdedb::read on generic JSON; the rest of the "
+                    "statement (exact participant and course sets, order, limits, instructor indices) is established by exact correspondence of "
+                    "the transcription with the real reader on every generated export and option set, plus two declarative predicates "
+                    "(penalty = position, mandatory refusals) evaluated in Coq on the implementation's own output.",
+        trusted_base=["modelled, not verified: src/io/cdedb.rs read(); serde_json text -> Value (BTreeMap key order) trusted; timestamp parsing "
+                      "and the room factor/offset fields (f64 -> f32) are not modelled (the correspondence runs without those options)"],
+        assumptions=["C12 is claimed as: theorems about the transcription + exact correspondence; the full declarative ProblemOf specification "
+                     "of DESIGN.md is not proved (partial)"]),
+    "C05": dict(mk(spec_none, streams_none, "end to end: generated exports -> real binary --cde (1 thread; track given/omitted, all ignore-flag "
+                   "combinations) -> import file parsed -> checked in Coq against the reader model's problem (Cde.import_okb) and the write model",
+                   extra_fn=c05_extra), allow_axioms=(),
+        explanation="C05 (Cde theorems): for the problem the reader builds, every hard-feasible assignment (C01) is written as an import file that "
+                    "satisfies import_ok: only ids of the problem, each assigned registration in a course marked active that the person chose or "
+                    "instructs, active courses within their limits, nobody in a cancelled course.  The real import files are parsed and checked.",
+        trusted_base=["modelled, not verified: cdedb.rs read()/write() (registrations and segments; summary text, timestamps and the rooms field are "
+                      "not modelled); the meaning of a partial import in the CdE Datenbank is taken from the property text"],
+        assumptions=["registrations the reader drops (not 'participant', no valid choice and no instructed course) keep what the database holds"]),
+    "C11": dict(mk(spec_none, streams_none, "as C05 with dense existing assignments (as attendee, as instructor of the same or another course, to "
+                   "cancelled / not offered courses, beyond max_size, below min_size) and the three option sets with an ignore flag; plus an "
+                   "independent reading of the raw export for 'ignored registrations are not mentioned, their courses stay active, cancelled "
+                   "courses are not mentioned'", extra_fn=c11_extra), allow_axioms=(),
+        explanation="C11 (Cde theorems): the adapted limits reserve the places of ignored attendees (new + pre <= max(max, pre), min met counting both), "
+                    "courses with ignored people are fixed and therefore written active, ignored registrations and ignored courses are not part of "
+                    "the problem and hence never in the file.  Real import files checked in Coq and against the raw export.",
+        trusted_base=["as C05; room fitting with both groups (offset increase) is covered by the reader correspondence (offset field) and C06, not "
+                      "by a separate end-to-end run with rooms"],
+        assumptions=["a registration assigned to a course that is itself ignored counts as unassigned (readme)"]),
+    "C13": dict(mk(spec_none, streams_none, "metamorphic pairs: an export and its twin after 1-5 edits of other tracks' registration data, other parts' "
+                   "statuses, other tracks' segments, persona / lodgement / extra course fields, and (without the respective option) course_id "
+                   "values and boolean flips of the selected track's segments; both run through the real binary with 1 thread",
+                   extra_fn=c13_extra), allow_axioms=(),
+        explanation="C13_other_key (Json lemmas): lookups by the selected track / part key are unaffected by changes under other keys; the reader "
+                    "model gives equal results on every generated twin pair (checked in Coq), and the real binary's verdict, score and written "
+                    "assignments/segments are identical on both.",
+        trusted_base=["modelled, not verified: cdedb.rs read(); the invariance theorem is proved for the lookup layer only, the whole-reader "
+                      "invariance is established per generated pair by evaluation (partial)"],
+        assumptions=["one worker thread for equality of the written assignment"]),
 
     "C15": dict(mk(spec_none, streams_none, "single-field corruptions (delete / null / wrong type / negative / out-of-range index / float / list / object) of "
                    "a valid simple-format document and of the two CdE export fixtures, truncated and garbage bytes, empty file, schema versions "
@@ -953,7 +1278,7 @@ REGISTRY = {
                       "C06_binary32 (instantiation only) depends on Flocq's classical axioms: sig_not_dec, sig_forall_dec, "
                       "functional_extensionality_dep, classic"],
         assumptions=["room_factor/room_offset enter the model as the f32 bit patterns the program holds after parsing"]),
-    "C08": dict(mk(spec_c08, streams_c08, RULE_NS + "; quality stream: 1-20000 participants with choices, scores with small/odd/large total penalty, external quality data"), allow_axioms=(),
+    "C08": dict(mk(spec_c08, streams_c08, RULE_NS + "; quality stream: 1-20000 participants with choices, scores with small/odd/large total penalty, external quality data; CdE reader stream: the penalties of ignored pre-assigned participants (AssignmentQualityInfo) compared with the reader model under all ignore-flag combinations", extra_fn=c08_extra), allow_axioms=(),
         explanation="C08_score_node / C08_score (score = score recomputed from the assignment, every schedule), C08_quality (numerator = sum "
                     "of penalties), C08_max (theoretical maximum >= score).  QualityInfo of the implementation is recomputed in Coq "
                     "(binary32 quotient compared bit for bit).  The rating of ignored pre-assigned participants (last sentence of the "
